@@ -5,6 +5,7 @@ import (
 	"flag"
 	"fmt"
 	"os"
+	"sort"
 	"strings"
 )
 
@@ -18,6 +19,7 @@ func main() {
 	timeout := flag.Int("timeout", 10000, "per-obligation solver timeout (ms)")
 	verbose := flag.Bool("v", false, "print every obligation")
 	dumpJSON := flag.Bool("json", false, "JSON output")
+	showSites := flag.Bool("sites", false, "list the call sites of the functions (for 'at' clauses)")
 	flag.Parse()
 	v, err := loadVerifier(*repo, *verif)
 	if err != nil {
@@ -44,6 +46,27 @@ func main() {
 				keys = append(keys, expandKey(k))
 			}
 		}
+	}
+	if *showSites {
+		for _, k := range keys {
+			if fn := v.findFunc(k); fn != nil {
+				x := v.newExec(fn, nil, 1000)
+				x.findLoops()
+				x.siteIDs()
+				var ss []string
+				for in, sn := range x.sites {
+					if strings.HasPrefix(sn, "call:") || strings.HasPrefix(sn, "defer:") {
+						ss = append(ss, fmt.Sprintf("%s\t%s", v.prog.Fset.Position(in.Pos()), sn))
+					}
+				}
+				sort.Strings(ss)
+				fmt.Println("==", k)
+				for _, l := range ss {
+					fmt.Println("  ", l)
+				}
+			}
+		}
+		return
 	}
 	var reps []*FuncReport
 	for _, k := range keys {
